@@ -19,6 +19,32 @@ Theorem C02_single_use : forall cf pre u cl sc s1 c scope post,
 Proof. exact single_use. Qed.
 Print Assumptions C02_single_use.
 
+(* AUTHORIZING AGAIN WITHIN A BROWSER SESSION.  `issues o rd`: o is an authorization request with redirect_uri rd - a
+   plain one (Authorize, rd = the client's first registered redirect_uri) or one that comes with the provider's session
+   cookie of an earlier authorization (AuthorizeCookie: any earlier grant's cookie, same or other client and user, same /
+   narrower / wider scope, the same or the client's other registered redirect_uri, old or new state and nonce; the provider
+   keeps the earlier grant when the request equals the stored one and makes a new grant otherwise).
+   The code of EVERY such authorization response is exchanged at most once ... *)
+Theorem C02_single_use_any_authorization : forall cf pre o rd s1 c scope post,
+  issues o rd -> step cf (fst (run cf init pre)) o = (s1, OAuthz c scope) -> (redeems c cf s1 post <= 1)%nat.
+Proof. exact single_use_issued. Qed.
+Print Assumptions C02_single_use_any_authorization.
+
+(* ... and its redirect binding is fixed when it is issued: after ANY further operations `post` (among them further
+   authorization requests of the same browser session for another registered redirect_uri), an exchange of code c that
+   yields tokens carried exactly the redirect_uri rd of the request that produced c. *)
+Theorem C02_redirect_bound_at_issue : forall cf pre o rd s1 c scope post o' s3 x,
+  issues o rd -> step cf (fst (run cf init pre)) o = (s1, OAuthz c scope) ->
+  step cf (fst (run cf s1 post)) o' = (s3, x) -> is_redeem c (fst (run cf s1 post)) o' x = true ->
+  exists idx kw cl, o' = Process idx kw /\ nth_error (parsed (fst (run cf s1 post))) idx = Some (PCode cl c (Some rd)).
+Proof. exact redirect_bound_at_issue. Qed.
+Print Assumptions C02_redirect_bound_at_issue.
+(* No operation changes which redirect_uri redeems a code. *)
+Theorem C02_redirect_never_rebound : forall cf s o c r,
+  code_redirect s c = Some r -> code_redirect (fst (step cf s o)) c = Some r.
+Proof. exact code_redirect_step. Qed.
+Print Assumptions C02_redirect_never_rebound.
+
 (* An exchange that yields tokens was requested by the client the code was issued to, with the redirect_uri
    of the authorization request, for a code that is unrevoked, unexpired and unused, under a live grant. *)
 Theorem C02_bound : forall cf c s o s1 x,
@@ -72,6 +98,30 @@ Example C02_expired_not_redeemable :
   redeems 0 cf s1 [Tick 301; TokenParse c1 (TRef 0) (Some (redirect_of c1)); Process 0 None] = 0%nat
   /\ redeems 0 cf s1 [TokenParse c1 (TRef 0) (Some (redirect_of c1)); Tick 301; Process 0 None] = 0%nat
   /\ redeems 0 cf s1 [Tick 300; TokenParse c1 (TRef 0) (Some (redirect_of c1)); Process 0 None] = 1%nat.
+Proof. vm_compute. repeat split; reflexivity. Qed.
+
+(* non-vacuity of the browser-session statements: a login with the first registered redirect_uri leaves code 0 pending;
+   the same browser authorizes again (session cookie of grant 0) with the client's second registered redirect_uri ->
+   code 1 in a new grant; with the identical request -> code 2 in grant 0.  Code 0 and code 2 are exchanged with cb only,
+   code 1 with cb2 only, each once. *)
+Definition cb2 := PS "https://client_1.example.com/cb2".
+Definition demo_cookie : list op :=
+  [ Authorize (PS "diana") c1 [PS "openid"];
+    AuthorizeCookie 0 (PS "diana") c1 [PS "openid"] cb2 true;
+    AuthorizeCookie 0 (PS "diana") c1 [PS "openid"] (redirect_of c1) false;
+    TokenParse c1 (TRef 0) (Some cb2); Process 0 None;                    (* code 0 with the later request's redirect_uri *)
+    TokenParse c1 (TRef 1) (Some (redirect_of c1)); Process 1 None;       (* code 1 with the earlier request's *)
+    TokenParse c1 (TRef 0) (Some (redirect_of c1)); Process 2 None;
+    TokenParse c1 (TRef 1) (Some cb2); Process 3 None;
+    TokenParse c1 (TRef 2) (Some cb2); Process 4 None;
+    TokenParse c1 (TRef 2) (Some (redirect_of c1)); Process 5 None ].
+Example C02_cookie_nonvacuous :
+  let cf := mk_cfg true false in
+  let '(s, outs) := run cf init demo_cookie in
+  firstn 3 outs = [OAuthz 0 [PS "openid"]; OAuthz 1 [PS "openid"]; OAuthz 2 [PS "openid"]]
+  /\ length (grants s) = 2%nat
+  /\ List.map is_tokens (skipn 3 outs) = [false; false; false; false; false; true; false; true; false; false; false; true]
+  /\ code_redirect s 0 = Some (redirect_of c1) /\ code_redirect s 1 = Some cb2 /\ code_redirect s 2 = Some (redirect_of c1).
 Proof. vm_compute. repeat split; reflexivity. Qed.
 
 (* TIE BY TRANSLATION: Item.is_active / max_usage_reached / supports_minting as they read in /repo/src NOW
